@@ -1074,10 +1074,15 @@ def run_bfs(oplist, depth, expand_all=False, cap=None):
 
 
 if __name__ == '__main__':
+    # development knob (mutant screening on a loaded machine): C06_DEPTH=2 stops the quick search after the complete
+    # depth-2 level; such a run is reported as capped, never as exhaustive
+    dev_depth = int(os.environ.get('C06_DEPTH', '3'))
     if not THOROUGH:
         if not os.environ.get('VERIF_REPLAY'):       # a replay always gets the full battery
             TRIM_LAST, LEAN_FROM = 2, 3
-        cov = run_bfs(OPS, 3)
+        if dev_depth < 3:
+            chk.capped.append('C06_DEPTH=%d: development run, search stopped after depth %d' % (dev_depth, dev_depth))
+        cov = run_bfs(OPS, min(3, dev_depth))
         cov['bound'] = ('all histories of depth <= 2 over %d operation instances, each extended by every enabled one of the '
                         '%d representative instances as third operation (dedup on the model state); states of depth 3 '
                         'are read back with one index of each kind' % (len(OPS), len(OPS) - len(VARIANTS_NOT_LAST)))
